@@ -90,6 +90,47 @@ where
     }
 }
 
+/// nth(k) after items were consumed from BOTH ends: `front` x next(), `back` x next_back(), then nth(k)
+/// for k in A(remaining).
+fn check_nth_after_back<I, T>(ctx: &mut Ctx, name: &str, make: impl Fn() -> I, reference: &[T], case: &dyn Fn() -> Value)
+where
+    I: DoubleEndedIterator<Item = T> + ExactSizeIterator,
+    T: PartialEq + Debug + Clone,
+{
+    let n = reference.len();
+    for front in 0..=1usize.min(n) {
+        for back in 1..=2usize {
+            if front + back > n {
+                continue;
+            }
+            let remaining = n - front - back;
+            for k in boundary_args(remaining) {
+                let got = guard(|| {
+                    let mut it = make();
+                    for _ in 0..front {
+                        it.next();
+                    }
+                    for _ in 0..back {
+                        it.next_back();
+                    }
+                    let a = it.nth(k);
+                    let len_after = it.len();
+                    let b = it.next();
+                    (a, len_after, b)
+                });
+                let (a, len_after, b) = if k < remaining {
+                    let pos = front + k;
+                    let left = remaining - k - 1;
+                    (Some(reference[pos].clone()), left, if left > 0 { Some(reference[pos + 1].clone()) } else { None })
+                } else {
+                    (None, 0, None)
+                };
+                ctx.expect(|| format!("{}.nth[{},after next_back]", name, arg_class(k, remaining)), got, &(a, len_after, b), || json!({"x": case(), "call": format!("{}: {} x next(), {} x next_back(), nth({}), len(), next()", name, front, back, k)}));
+            }
+        }
+    }
+}
+
 fn check_bits(ctx: &mut Ctx, d: &BitsDesc) {
     let m = d.model();
     let c = Case::Bits(d.clone());
@@ -109,10 +150,13 @@ fn check_bits(ctx: &mut Ctx, d: &BitsDesc) {
             check_bitvec!(ctx, &bv, &m, "BitVector", &q, case);
             check_nth(ctx, "BitVector.iter", || bv.iter(), &bools, true, &case);
             check_nth_back(ctx, "BitVector.iter", || bv.iter(), &bools, &case);
+            check_nth_after_back(ctx, "BitVector.iter", || bv.iter(), &bools, &case);
             check_nth(ctx, "BitVector.one_iter", || bv.one_iter(), &ones, true, &case);
             check_nth_back(ctx, "BitVector.one_iter", || bv.one_iter(), &ones, &case);
+            check_nth_after_back(ctx, "BitVector.one_iter", || bv.one_iter(), &ones, &case);
             check_nth(ctx, "BitVector.zero_iter", || bv.zero_iter(), &zeros, true, &case);
             check_nth_back(ctx, "BitVector.zero_iter", || bv.zero_iter(), &zeros, &case);
+            check_nth_after_back(ctx, "BitVector.zero_iter", || bv.zero_iter(), &zeros, &case);
             // positioned iterators hand out the same type
             if !ones.is_empty() {
                 let r = ones.len() / 2;
@@ -131,8 +175,10 @@ fn check_bits(ctx: &mut Ctx, d: &BitsDesc) {
             check_bitvec!(ctx, &sv, &m, "SparseVector", &q, case);
             check_nth(ctx, "SparseVector.iter", || sv.iter(), &bools, true, &case);
             check_nth_back(ctx, "SparseVector.iter", || sv.iter(), &bools, &case);
+            check_nth_after_back(ctx, "SparseVector.iter", || sv.iter(), &bools, &case);
             check_nth(ctx, "SparseVector.one_iter", || sv.one_iter(), &ones, true, &case);
             check_nth_back(ctx, "SparseVector.one_iter", || sv.one_iter(), &ones, &case);
+            check_nth_after_back(ctx, "SparseVector.one_iter", || sv.one_iter(), &ones, &case);
             check_nth(ctx, "SparseVector.zero_iter", || sv.zero_iter(), &zeros, true, &case);
         }
         Ok(Err(e)) => {
@@ -175,6 +221,7 @@ fn check_wm(ctx: &mut Ctx, values: &[u64]) {
     };
     check_nth(ctx, "WaveletMatrix.iter", || wm.iter(), values, true, &case);
     check_nth_back(ctx, "WaveletMatrix.iter", || wm.iter(), values, &case);
+    check_nth_after_back(ctx, "WaveletMatrix.iter", || wm.iter(), values, &case);
     check_nth(ctx, "WaveletMatrix.into_iter", || wm.clone().into_iter(), values, true, &case);
     for v in wmcheck::value_args(values, w) {
         let occ: Vec<(usize, usize)> = wmcheck::occurrences(values, v).into_iter().enumerate().collect();
